@@ -5,7 +5,7 @@ Import ListNotations.
 
 Definition gi_res (p : list N) (nd : node) : gires :=
   match nd with
-  | File _ _ _ data ff => if ff_open ff then GiErr else GiOk (Some (p, data))
+  | File _ _ _ data ff => if ff_open ff then GiErr else GiOk (Some (gi_domain p, data))
   | Dir _ _ df => if df_open df then GiErr else GiOk None
   end.
 
